@@ -120,6 +120,10 @@ func runC17(c *Ctx) {
 		}
 		switch x := in.(type) {
 		case *ssa.Call:
+			// the delete itself, wherever the path search finds it (new helpers, literals run under a lock helper)
+			if CalleeName(x.Common()) == "builtin:delete" && x.Parent() != send && ff.Term(x.Common().Args[0]).Any(IsField(mp, "resCh").F) && ff.Term(x.Common().Args[1]).String() == keyT.String() {
+				return true
+			}
 			return releasesInCallee(x.Common())
 		case *ssa.Defer:
 			return releasesInCallee(x.Common())
@@ -129,6 +133,14 @@ func runC17(c *Ctx) {
 	for _, b := range blocksDeep(send) {
 		for _, in := range b.Instrs {
 			if isDel(in) {
+				nRel++
+			}
+		}
+	}
+	if nRel == 0 {
+		// releases that sit in helpers of helpers: count the calls that intercept the search
+		for _, cl := range AllCalls(send) {
+			if g := newHelperCallee(cl); g != nil && reachesReturnAvoiding(g.Blocks[0].Instrs[0], isDel, nil) == nil {
 				nRel++
 			}
 		}
@@ -159,6 +171,9 @@ func runC17(c *Ctx) {
 	// earlier request can be buffered in it
 	{
 		_, fresh := stripConv(reg.Value).(*ssa.MakeChan)
+		if rt := ff.Term(reg.Value); !fresh && rt.Op == "make" && rt.Sym == "chan" {
+			fresh = true // the same make(), seen through a captured variable
+		}
 		c.Require("C17.R11 channel-per-request", FuncKey(send)+": registered channel", p.InstrPos(reg), "the channel stored in resCh is created by make() in this call (never reused across requests)", fresh, "registered value: "+ff.Term(reg.Value).String())
 	}
 	// deletes happen under the table's lock: covered by R4 field guard
